@@ -3279,4 +3279,212 @@ theorem accepts_iff_59 (s : Text) :
 /-- the field models print a time of day with the function whose round trip C11 proves (`time_print_parse`, `time_parse_print`) -/
 theorem hhmm_is_printHHMM (t : Nat × Nat) : hhmm t = C11.printHHMM t.1 t.2 := rfl
 
+/-! ### numbered lines: 50A and 59F -/
+
+/-- numbered lines `k/33x`, `k+1/33x`, …: the number is one digit, the text 1 to 33 x-characters -/
+def Doc.NumberedFrom : Nat → List Text → Prop
+  | _, [] => True
+  | k, l :: ls => (∃ text, l = digitChar k :: '/' :: text ∧ k < 10 ∧ Doc.XText 33 text) ∧ Doc.NumberedFrom (k + 1) ls
+
+theorem digitVal_eq_iff (d : Char) (k : Nat) : digitVal d = some k ↔ (d = digitChar k ∧ k < 10) :=
+  ⟨fun h => ⟨(C11.digitChar_digitVal h).symm, C11.digitVal_lt h⟩, fun ⟨e, hk⟩ => e ▸ C11.digitVal_digitChar hk⟩
+
+theorem numbered_accepts_iff (keep : Bool) (ls : List Text) (k : Nat) :
+    (∃ r, numberedLines keep ls k = .ok r ∧ r.length = ls.length) ↔ Doc.NumberedFrom k ls := by
+  induction ls generalizing k with
+  | nil => simp [numberedLines, Doc.NumberedFrom]
+  | cons line rest ih =>
+    unfold numberedLines Doc.NumberedFrom
+    constructor
+    · rintro ⟨r, h, hlen⟩
+      split at h
+      · rename_i d text
+        split at h; · cases h
+        rename_i hd
+        split at h; · cases h
+        rename_i hne
+        split at h; · cases h
+        rename_i hl
+        split at h; · cases h
+        rename_i hx
+        simp only [bne_iff_ne, ne_eq, Decidable.not_not] at hd
+        simp only [Bool.not_eq_true', Bool.not_eq_false] at hx
+        obtain ⟨hd1, hd2⟩ := (digitVal_eq_iff d k).mp hd
+        split at h
+        · rename_i ls' hls
+          cases h
+          simp only [List.length_cons, Nat.add_right_cancel_iff] at hlen
+          exact ⟨⟨text, by rw [hd1], hd2, xtext_of_checks 33 text (by omega) (by intro e; subst e; simp at hne) hx⟩,
+            (ih (k + 1)).mp ⟨ls', hls, hlen⟩⟩
+        · cases h
+        · cases h
+      · cases h
+    · rintro ⟨⟨text, rfl, hk, hx⟩, hrest⟩
+      obtain ⟨r', hr', hlen'⟩ := (ih (k + 1)).mpr hrest
+      obtain ⟨h1, h2, h3⟩ := checks_of_xtext 33 text hx
+      have hne : text.isEmpty = false := by cases text <;> simp_all
+      have hl : ¬ blen text > 33 := by omega
+      refine ⟨(if keep then digitChar k :: '/' :: text else text) :: r', ?_, by simp [hlen']⟩
+      simp only [C11.digitVal_digitChar hk, bne_self_eq_false, Bool.false_eq_true, if_false, hne, hl, h3, Bool.not_true, hr']
+
+theorem numbered_length (keep : Bool) (ls r : List Text) (k : Nat) (h : numberedLines keep ls k = .ok r) : r.length = ls.length := by
+  induction ls generalizing k r with
+  | nil => simp [numberedLines] at h; subst h; rfl
+  | cons line rest ih =>
+    unfold numberedLines at h
+    split at h
+    · repeat (split at h; · cases h)
+      split at h
+      · rename_i ls' hls
+        cases h
+        simp [ih _ _ hls]
+      · cases h
+      · cases h
+    · cases h
+
+theorem numbered_isOk_iff (keep : Bool) (ls : List Text) (k : Nat) :
+    (numberedLines keep ls k).isOk = true ↔ Doc.NumberedFrom k ls := by
+  rw [← numbered_accepts_iff keep ls k]
+  constructor
+  · intro h
+    cases hr : numberedLines keep ls k with
+    | ok r => exact ⟨r, rfl, numbered_length keep ls r k hr⟩
+    | err => rw [hr] at h; cases h
+    | panic => rw [hr] at h; cases h
+  · rintro ⟨r, hr, _⟩; rw [hr]; rfl
+
+/-- 50A (as this library defines it) `[/34x]` + `4*(1!n/33x)` over the lines of the content: an optional party-identifier
+line, then 1 to 4 lines numbered 1, 2, … -/
+def Doc.F50ALines (l0 : Text) (rest : List Text) : Prop :=
+  (∃ id, l0 = '/' :: id ∧ Doc.XText 34 id ∧ Doc.NumberedFrom 1 rest ∧ 1 ≤ rest.length ∧ rest.length ≤ 4) ∨
+  (Doc.NumberedFrom 1 (l0 :: rest) ∧ rest.length + 1 ≤ 4)
+
+theorem numbered_head_not_slash (k : Nat) (l : Text) (ls : List Text) (h : Doc.NumberedFrom k (l :: ls)) : l.head? ≠ some '/' := by
+  obtain ⟨⟨text, rfl, hk, _⟩, _⟩ := h
+  simp only [List.head?_cons, ne_eq, Option.some.injEq]
+  intro he
+  have := C11.digitVal_digitChar hk
+  rw [he] at this
+  have hn : digitVal '/' = none := by decide
+  rw [hn] at this; cases this
+
+theorem after_numbered {V : Type} (keep : Bool) (lines : List Text) (f : List Text → V) :
+    (match numberedLines keep lines 1 with
+      | .ok ls => if ls.isEmpty then (Res.err : Res V) else if ls.length > 4 then .err else .ok (f ls)
+      | .err => .err
+      | .panic => .panic).isOk = true ↔ (Doc.NumberedFrom 1 lines ∧ 1 ≤ lines.length ∧ lines.length ≤ 4) := by
+  rw [← numbered_isOk_iff keep lines 1]
+  cases hr : numberedLines keep lines 1 with
+  | ok r =>
+    have hlen := numbered_length keep lines r 1 hr
+    simp only [Res.isOk, true_and]
+    rw [← hlen]
+    cases r with
+    | nil => simp
+    | cons a r' =>
+      simp only [List.isEmpty_cons, Bool.false_eq_true, if_false, List.length_cons]
+      by_cases h4 : r'.length + 1 > 4
+      · simp only [h4, if_true]; constructor
+        · intro h; cases h
+        · intro h; omega
+      · simp only [h4, if_false]; constructor
+        · intro _; omega
+        · intro _; trivial
+  | err => simp [Res.isOk]
+  | panic => simp [Res.isOk]
+
+theorem accepts_iff_50A (s : Text) :
+    (F50A.parse s).isOk = true ↔ ∃ l0 rest, splitNl s = l0 :: rest ∧ Doc.F50ALines l0 rest := by
+  unfold F50A.parse
+  have hnn := splitNl_ne_nil s
+  cases hsp : splitNl s with
+  | nil => exact absurd hsp hnn
+  | cons l0 rest =>
+    have hex : (∃ a b, l0 :: rest = a :: b ∧ Doc.F50ALines a b) ↔ Doc.F50ALines l0 rest :=
+      ⟨fun ⟨a, b, he, hq⟩ => by cases he; exact hq, fun hq => ⟨l0, rest, rfl, hq⟩⟩
+    rw [hex]
+    unfold Doc.F50ALines
+    simp only
+    split
+    · rename_i ident
+      constructor
+      · intro h
+        split at h; · cases h
+        rename_i hne
+        split at h; · cases h
+        rename_i hl
+        split at h; · cases h
+        rename_i hx
+        simp only [Bool.not_eq_true', Bool.not_eq_false] at hx
+        obtain ⟨hn, h1, h4⟩ := (after_numbered false rest _).mp h
+        exact Or.inl ⟨ident, rfl, xtext_of_checks 34 ident (by omega) (by intro e; subst e; simp at hne) hx, hn, h1, h4⟩
+      · rintro (⟨id, he, hx, hn, h1, h4⟩ | ⟨hn, _⟩)
+        · cases he
+          obtain ⟨c1, c2, c3⟩ := checks_of_xtext 34 ident hx
+          have hne : ident.isEmpty = false := by cases ident <;> simp_all
+          have hl : ¬ blen ident > 34 := by omega
+          simp only [hne, Bool.false_eq_true, if_false, hl, c3, Bool.not_true]
+          exact (after_numbered false rest _).mpr ⟨hn, h1, h4⟩
+        · exact absurd rfl (numbered_head_not_slash 1 _ rest hn)
+    · rename_i hns
+      refine Iff.trans (after_numbered false (l0 :: rest) (fun ls => (⟨none, ls⟩ : OptD))) ?_
+      simp only [List.length_cons]
+      constructor
+      · rintro ⟨hn, _, h4⟩; exact Or.inr ⟨hn, h4⟩
+      · rintro (⟨id, he, _⟩ | ⟨hn, h4⟩)
+        · exact absurd he (hns id)
+        · exact ⟨hn, by omega, h4⟩
+
+/-- 59F `[/34x]` + `4*(1!n/33x)` over the lines of the content: an optional party-identifier line (in one of the three
+documented spellings), then 1 to 4 lines numbered 1, 2, … -/
+def Doc.F59FLines (l0 : Text) (rest : List Text) : Prop :=
+  (Doc.PartyId l0 ∧ Doc.NumberedFrom 1 rest ∧ 1 ≤ rest.length ∧ rest.length ≤ 4) ∨
+  (Doc.NumberedFrom 1 (l0 :: rest) ∧ rest.length + 1 ≤ 4)
+
+theorem accepts_iff_59F (s : Text) :
+    (F59F.parse s).isOk = true ↔ ∃ l0 rest, splitNl s = l0 :: rest ∧ Doc.F59FLines l0 rest := by
+  unfold F59F.parse
+  have hnn := splitNl_ne_nil s
+  cases hsp : splitNl s with
+  | nil => exact absurd hsp hnn
+  | cons l0 rest =>
+    have hex : (∃ a b, l0 :: rest = a :: b ∧ Doc.F59FLines a b) ↔ Doc.F59FLines l0 rest :=
+      ⟨fun ⟨a, b, he, hq⟩ => by cases he; exact hq, fun hq => ⟨l0, rest, rfl, hq⟩⟩
+    rw [hex]
+    unfold Doc.F59FLines
+    simp only
+    cases hp : parsePartyIdentifier l0 with
+    | ok o =>
+      cases o with
+      | some p =>
+        have hpid := (pid_accepts_iff l0).mp ⟨p, hp⟩
+        simp only
+        refine Iff.trans (after_numbered true rest (fun ls => (⟨some p, ls⟩ : OptD))) ?_
+        constructor
+        · rintro ⟨hn, h1, h4⟩; exact Or.inl ⟨hpid, hn, h1, h4⟩
+        · rintro (⟨_, hn, h1, h4⟩ | ⟨hn, _⟩)
+          · exact ⟨hn, h1, h4⟩
+          · exact absurd (partyId_head l0 hpid) (numbered_head_not_slash 1 _ rest hn)
+      | none =>
+        simp only
+        refine Iff.trans (after_numbered true (l0 :: rest) (fun ls => (⟨none, ls⟩ : OptD))) ?_
+        simp only [List.length_cons]
+        constructor
+        · rintro ⟨hn, _, h4⟩; exact Or.inr ⟨hn, h4⟩
+        · rintro (⟨hpid, _⟩ | ⟨hn, h4⟩)
+          · obtain ⟨p, hpp⟩ := (pid_accepts_iff l0).mpr hpid
+            rw [hpp] at hp; cases hp
+          · exact ⟨hn, by omega, h4⟩
+    | err =>
+      simp only [Res.isOk, Bool.false_eq_true, false_iff, not_or]
+      refine ⟨fun ⟨hpid, _⟩ => ?_, fun ⟨hn, _⟩ => ?_⟩
+      · obtain ⟨p, hpp⟩ := (pid_accepts_iff l0).mpr hpid
+        rw [hpp] at hp; cases hp
+      · have := pid_none_of_head l0 (numbered_head_not_slash 1 _ rest hn)
+        rw [this] at hp; cases hp
+    | panic => exact absurd hp (pid_no_panic l0)
+example : Doc.NumberedFrom 1 ["1/JOHN DOE".toList, "2/1 HIGH ST".toList] :=
+  ⟨⟨"JOHN DOE".toList, by decide, by decide, ⟨by decide, by decide, by decide⟩⟩,
+   ⟨"1 HIGH ST".toList, by decide, by decide, ⟨by decide, by decide, by decide⟩⟩, trivial⟩
+
 end SwiftMT.Props.C05
